@@ -19,3 +19,26 @@ def line_listed_by_two_sessions_counts_twice():
         return sorted({v["kind"] for v in s.viol}), [dict(v) for v in s.viol[:5]]
     finally:
         s.destroy()
+
+
+def root_commit_stats_under_log_showroot_false():
+    """D78 (fixed): with log.showRoot=false in the user's configuration `git-ai stats <root commit> --json` reported 0 added lines (the
+    `git show --numstat` it parses prints no diff for a root commit then), so human_additions + ai_accepted != added and
+    ai_additions > added."""
+    from ..props import c19
+    from ..engine import Scenario
+
+    class S2(Script, Hist):
+        def __init__(self, name, **p):
+            prof = dict(hostile_content=False, decoys=False, sessions=3, files=1, human_ckpt_rate=0.0)
+            prof.update(p)
+            Scenario.__init__(self, "W" + name, 0, 0, prof, world_kwargs=dict(gitconfig_extra="[log]\n\tshowRoot = false\n"))
+    s = S2("d78")
+    try:
+        s.ai_write("S1", "new.txt", [s.line("S1"), s.line("S1")])
+        s.human_write("h.txt", [s.line("human")])
+        s.commit_all("root commit with an agent's file")
+        c19.check_commit_stats(s, s.head())
+        return sorted({v["kind"] for v in s.viol}), [dict(v) for v in s.viol[:5]]
+    finally:
+        s.destroy()
